@@ -107,6 +107,23 @@ func VerifyV4Signature(root RootUserConfig, iam auth.IAMService, logger s3log.Au
 
 		hashPayload := ctx.Get("X-Amz-Content-Sha256")
 		if utils.IsBigDataAction(ctx) {
+			// The signature only covers the request line and headers
+			// (including the declared payload hash), so it is verified
+			// before the handler runs. Only the comparison of the
+			// declared payload hash with the received bytes has to wait
+			// until the body has been read.
+			var contentLength int64
+			if cl := ctx.Get("Content-Length"); cl != "" {
+				contentLength, err = strconv.ParseInt(cl, 10, 64)
+				if err != nil {
+					return sendResponse(ctx, s3err.GetAPIError(s3err.ErrInvalidRequest), logger, mm)
+				}
+			}
+			err = utils.CheckValidSignature(ctx, authData, account.Secret, hashPayload, tdate, contentLength, debug)
+			if err != nil {
+				return sendResponse(ctx, err, logger, mm)
+			}
+
 			// for streaming PUT actions, authorization is deferred
 			// until end of stream due to need to get length and
 			// checksum of the stream to validate authorization
